@@ -18,6 +18,7 @@ var c07Files = Files{
 	"x.d2":   "p: {q}\nk: v\np -> k\n",
 	"y.d2":   "...@x\nz: 1\n",
 	"d/x.d2": "w: {icon: ./i.png}\n",
+	"f.d2":   "k\n...${v}\nm: {n}\n",
 }
 
 // checkCompileResult is the shared "graph xor positioned errors" oracle.
@@ -68,7 +69,7 @@ func msgKind(m string) string {
 
 func c07Compile(in string) eng.Res {
 	g, _, err := CompileFS("index.d2", in, c07Files)
-	paths := map[string]bool{"index.d2": true, "x.d2": true, "y.d2": true, "d/x.d2": true}
+	paths := map[string]bool{"index.d2": true, "x.d2": true, "y.d2": true, "d/x.d2": true, "f.d2": true}
 	out, bad := checkCompileResult(g == nil, err, paths)
 	if bad != nil {
 		return *bad
@@ -106,7 +107,7 @@ func c07Size(in string) eng.Res {
 	t0 := time.Now()
 	g, _, err := CompileFS("index.d2", src, c07Files)
 	_ = t0
-	out, bad := checkCompileResult(g == nil, err, map[string]bool{"index.d2": true, "x.d2": true, "y.d2": true, "d/x.d2": true})
+	out, bad := checkCompileResult(g == nil, err, map[string]bool{"index.d2": true, "x.d2": true, "y.d2": true, "d/x.d2": true, "f.d2": true})
 	if bad != nil {
 		return *bad
 	}
@@ -201,6 +202,7 @@ var c07Core = []string{
 	"a.width: 10", "a.height: -1", "a.top: 5", "a.left: x", "a.grid-rows: 0", "a.grid-gap: 1", "a.constraint: [a; b]", "a.tooltip: t", "a.link: https://x.y", "a.icon: https://x.y/i.png", "a.icon: i.png",
 	"a: suspend", "a: unsuspend", "*: suspend", "a -> b: suspend", "(a -> b)[0]: unsuspend", "**: unsuspend",
 	"a: [1]", "a: []", "a: [[]]", "a: [{b}]", "a: {b: [c]}", "a: x {b}", "a: {b} x", "a.b.c.d.e", "\"a.b\".c", "a.\"\"", "\"\"", "a: \"\"", "A", "A.B: y", "a.LABEL: z", "a.Style.Fill: red", "a.SHAPE: Circle",
+	"a: {x.style -> _.c}", "a: {b.label -> c}", "a.shape -> b", "vars: {v}", "vars: {v: {}}", "vars: {v: {q: 1}}", "a: \"${v}\"", "a: {...@f}", "x: [@f.k]", "...@f", "a: @f.k", "a: @f.m",
 	"legend: {x}", "vars: {d2-legend: {a; a -> b}}", "d2-config: x", "vars: {d2-config: {sketch: true}}", "a.vars: {v: 1}", "a: {vars: {v: 2}; b: ${v}}",
 }
 
@@ -240,6 +242,23 @@ func init() {
 					w.Eval("compile", "*: {\n"+strings.TrimPrefix(s[0], "o.")+"\n}")
 					w.Eval("compile", "classes: {k: {\n"+strings.TrimPrefix(s[0], "o.")+"\n}}\nq.class: k")
 				})
+			})
+			w.Phase("primer-pairs-x-full-alphabet", func() {
+				// two-statement primers that put the compiler's bookkeeping into a non-initial state (placeholder fields
+				// that are removed or expand to nothing, deletions, globs, import overlays, boards), each followed and
+				// preceded by every statement of the full alphabet
+				primers := [][]string{
+					{"...${v}", "vars: {v: {}}"}, {"...${v}", "vars: {v: {a: b}}\na"}, {"a: {...${v}}", "vars: {v: {}}"}, {"...${v}", "vars: {v: [1]}"},
+					{"a: null", "a"}, {"a -> b", "(a -> b)[0]: null"}, {"*: g", "a: null"}, {"**.shape: circle", "a.b"}, {"...@x", "p: null"}, {"k: @x", "k.p: null"},
+					{"layers: {l: {x}}", "x"}, {"scenarios: {s: {a: null}}", "a"}, {"classes: {k: {shape: circle}}", "a.class: k"}, {"a: {_.b}", "b: null"},
+				}
+				for _, pr := range primers {
+					for _, st := range full {
+						w.Eval("compile", pr[0]+"\n"+pr[1]+"\n"+st)
+						w.Eval("compile", pr[0]+"\n"+st+"\n"+pr[1])
+						w.Eval("compile", st+"\n"+pr[0]+"\n"+pr[1])
+					}
+				}
 			})
 			if w.Thorough() {
 				w.Phase("core-stmts<=3", func() {
